@@ -147,3 +147,34 @@ def coreRules (items : List RuleOrBinding) (b : Bindings) (firstCtx : Nat) : Opt
       (coreRules rest b next).map fun l => { re := re, ctx := ctx, value := r.rhs } :: l
 
 end Lexgen
+
+namespace Lexgen
+
+/-! ## The whole definition: rule sets with the bindings and right-context numbering in scope -/
+
+def ctxCount (rs : List RuleOrBinding) : Nat :=
+  (rs.filter fun | .rule r => r.ctx.isSome | .binding _ _ => false).length
+
+/-- the rule sets of a definition, each with the top-level bindings visible to it (those declared
+before it) and the index its first right context receives -/
+def scopedRuleSets : LexerDef → Bindings → Nat → List (String × List RuleOrBinding × Bindings × Nat)
+  | [], _, _ => []
+  | .errorType :: rest, b, k => scopedRuleSets rest b k
+  | .rb (.binding n re) :: rest, b, k => scopedRuleSets rest (b ++ [(n, re)]) k
+  | .rb (.rule r) :: rest, b, k => scopedRuleSets rest b (k + if r.ctx.isSome then 1 else 0)
+  | .ruleSet name rs :: rest, b, k => (name, rs, b, k) :: scopedRuleSets rest b (k + ctxCount rs)
+
+/-- What the compiled machine accepts from the entry of a rule set: after every word of characters
+the accept list is that of the rules denoting the word (in rule order; dead means none matches), and
+the end-of-input transition there carries the rules denoting the word followed by end-of-input. -/
+def RealisesRules (d : DFA Trans) (e : Nat) (rules : List CoreRule) : Prop :=
+  ∀ w : List Nat,
+    match reach d (.st e) w with
+    | some c =>
+      Auto.acc d c = matchingAccs rules (w.map Sym.ch) ∧
+      (match Auto.eoi d c with
+       | some c' => Auto.acc d c' = matchingAccs rules (w.map Sym.ch ++ [Sym.eoi])
+       | none => matchingAccs rules (w.map Sym.ch ++ [Sym.eoi]) = [])
+    | none => matchingAccs rules (w.map Sym.ch) = []
+
+end Lexgen
